@@ -237,7 +237,9 @@ impl<'p> IpPayload<'p> {
             #[cfg(feature = "proto-ipv6")]
             Self::Icmpv6(_) => SixlowpanNextHeader::Uncompressed(IpProtocol::Icmpv6),
             #[cfg(feature = "proto-ipv6")]
-            Self::HopByHopIcmpv6(_, _) => unreachable!(),
+            // The hop-by-hop header in front of the ICMPv6 message is carried as a LOWPAN_NHC
+            // extension header.
+            Self::HopByHopIcmpv6(_, _) => SixlowpanNextHeader::Compressed,
             #[cfg(all(feature = "proto-ipv4", feature = "multicast"))]
             Self::Igmp(_) => unreachable!(),
             #[cfg(feature = "socket-tcp")]
